@@ -1,4 +1,5 @@
 import Model.Recv
+import Proofs.ServerStream
 /-
 C03 — Results, telemetry and exceptions are delivered exactly once, in order.
 
@@ -166,3 +167,25 @@ example : recv { onResult := true, onProgress := true, onProfile := false, onEve
                  onLogs := false, onLog := false, failAt := none }
     [.data 2 0, .data 2 3, .progress 7, .events 6 2, .data 0 0, .endOfStream, .data 2 9] =
     ([.result false 2 0, .result false 2 3, .progress 7, .events 2, .event 0, .event 1], .nil) := by decide
+
+/-! ### the byte level -/
+
+open Model.ServerStream in
+/-- **From bytes to callbacks**: for every list of well-formed server packets (blocks of the
+caller's result schema or end markers, telemetry blocks, progress, profile, table columns,
+exception chains, EndOfStream, Pong), at every revision, compressed or not, the receive loop
+run on the concatenated encodings — parse one packet, act on it, continue — gives exactly what
+the receive specification gives on the packet list; every packet is consumed exactly. Together
+with `C08_readFull_any_schedule` this holds under every segmentation of the bytes. -/
+theorem C03_byte_level (cfg : Model.Col.Cfg) (hcap : cfg.cap = none) (s : Model.Send.Conn) (sch : Schemas)
+    (h : Handlers) (ps : List SPkt) (fuel : Nat) (st : St) (hf : ps.length < fuel)
+    (hok : ∀ p ∈ ps, SPkt.OK cfg s sch p) :
+    runBytes s cfg sch h fuel st (encStream s ps) = run h st (ps.map fun p => absR (seen s.v p)) :=
+  runBytes_spec cfg hcap s sch h ps fuel st hf hok
+
+open Model.ServerStream in
+/-- one packet: parsed back to itself, exactly consumed -/
+theorem C03_packet_roundtrip (cfg : Model.Col.Cfg) (hcap : cfg.cap = none) (s : Model.Send.Conn) (sch : Schemas)
+    (p : SPkt) (r : Model.Bytes) (h : SPkt.OK cfg s sch p) :
+    decPkt s cfg sch (encPkt s p ++ r) = .ok (seen s.v p, r) :=
+  decPkt_rt cfg hcap s sch p r h
